@@ -1,6 +1,7 @@
 package main
 
 import (
+	"regexp"
 	"bytes"
 	"encoding/json"
 	"fmt"
@@ -15,6 +16,37 @@ import (
 // jsonRef decodes s with encoding/json (token stream, UseNumber) into a P, keeping object key
 // order. ok=false when encoding/json rejects the text.
 func jsonRef(s string) (p *P, ok bool) {
+	p, ok, _ = jsonRef3(s)
+	return
+}
+
+// jsonRef3 additionally reports judged=false for texts encoding/json's own Unmarshal and Valid
+// disagree on (number literals outside the double range).
+func jsonRef3(s string) (p *P, ok bool, judged bool) {
+	p, ok = jsonRefRaw(s)
+	if ok {
+		var any interface{}
+		if err := json.Unmarshal([]byte(s), &any); err != nil {
+			return nil, false, false
+		}
+	}
+	return p, ok, true
+}
+
+// jsonErrClass names the grammar violation encoding/json reports (characters and offsets stripped).
+func jsonErrClass(s string) string {
+	var any interface{}
+	err := json.Unmarshal([]byte(s), &any)
+	if err == nil {
+		return "valid"
+	}
+	m := err.Error()
+	m = regexp.MustCompile(`'[^']*'|"[^"]*"|[0-9]+`).ReplaceAllString(m, "")
+	m = strings.Join(strings.Fields(m), "-")
+	return "malformed(" + m + ")"
+}
+
+func jsonRefRaw(s string) (p *P, ok bool) {
 	if !json.Valid([]byte(s)) {
 		return nil, false
 	}
@@ -187,6 +219,29 @@ type serReader struct {
 	s   string
 	i   int
 	amb bool
+	err string // first grammar violation
+}
+
+func (r *serReader) fail(code string) *P {
+	if r.err == "" {
+		r.err = code
+	}
+	return nil
+}
+
+// serErrClass names the first production at which the strict reader gives up.
+func serErrClass(s string) string {
+	r := &serReader{s: s}
+	p := r.value(0)
+	switch {
+	case r.amb:
+		return "ambiguous"
+	case p == nil:
+		return "malformed(" + r.err + ")"
+	case r.i != len(s):
+		return "malformed(trailing-data)"
+	}
+	return "valid"
 }
 
 func (r *serReader) lit(x string) bool {
@@ -214,14 +269,18 @@ func (r *serReader) uint() (int, bool) {
 }
 
 func (r *serReader) value(depth int) *P {
-	if r.i >= len(r.s) || depth > 100000 {
-		return nil
+	if r.i >= len(r.s) {
+		return r.fail("truncated")
+	}
+	if depth > 200000 {
+		return r.fail("too-deep")
 	}
 	switch r.s[r.i] {
 	case 'N':
 		if r.lit("N;") {
 			return &P{K: 'n'}
 		}
+		return r.fail("N-syntax")
 	case 'b':
 		if r.lit("b:0;") {
 			return &P{K: 'b'}
@@ -229,9 +288,10 @@ func (r *serReader) value(depth int) *P {
 		if r.lit("b:1;") {
 			return &P{K: 'b', B: true}
 		}
+		return r.fail("b-syntax")
 	case 'i':
 		if !r.lit("i:") {
-			return nil
+			return r.fail("i-syntax")
 		}
 		st := r.i
 		if r.i < len(r.s) && (r.s[r.i] == '-' || r.s[r.i] == '+') {
@@ -242,7 +302,7 @@ func (r *serReader) value(depth int) *P {
 			r.i++
 		}
 		if ds == r.i {
-			return nil
+			return r.fail("i-syntax")
 		}
 		n, err := strconv.ParseInt(strings.TrimPrefix(r.s[st:r.i], "+"), 10, 64)
 		if err != nil {
@@ -250,16 +310,16 @@ func (r *serReader) value(depth int) *P {
 			return nil
 		}
 		if !r.lit(";") {
-			return nil
+			return r.fail("i-syntax")
 		}
 		return &P{K: 'i', I: n}
 	case 'd':
 		if !r.lit("d:") {
-			return nil
+			return r.fail("d-syntax")
 		}
 		end := strings.IndexByte(r.s[r.i:], ';')
 		if end <= 0 {
-			return nil
+			return r.fail("d-syntax")
 		}
 		txt := r.s[r.i : r.i+end]
 		var f float64
@@ -274,46 +334,49 @@ func (r *serReader) value(depth int) *P {
 			// digits, sign, '.', exponent only
 			for _, c := range txt {
 				if !(c >= '0' && c <= '9' || c == '-' || c == '+' || c == '.' || c == 'e' || c == 'E') {
-					return nil
+					return r.fail("d-syntax")
 				}
 			}
 			var err error
 			f, err = strconv.ParseFloat(txt, 64)
 			if err != nil {
-				return nil
+				return r.fail("d-syntax")
 			}
 		}
 		r.i += end + 1
 		return &P{K: 'f', F: f}
 	case 's':
 		if !r.lit("s:") {
-			return nil
+			return r.fail("s-syntax")
 		}
 		n, ok := r.uint()
 		if !ok || !r.lit(":\"") {
-			return nil
+			return r.fail("s-length-syntax")
 		}
 		if r.i+n > len(r.s) {
-			return nil
+			return r.fail("s-length-mismatch")
 		}
 		str := r.s[r.i : r.i+n]
 		r.i += n
 		if !r.lit("\";") {
-			return nil
+			return r.fail("s-length-mismatch")
 		}
 		return &P{K: 's', S: str}
 	case 'a':
 		if !r.lit("a:") {
-			return nil
+			return r.fail("a-syntax")
 		}
 		n, ok := r.uint()
 		if !ok || !r.lit(":{") {
-			return nil
+			return r.fail("a-count-syntax")
 		}
 		p := &P{K: 'a'}
 		for j := 0; j < n; j++ {
-			if r.i >= len(r.s) || (r.s[r.i] != 'i' && r.s[r.i] != 's') {
-				return nil
+			if r.i < len(r.s) && r.s[r.i] == '}' {
+				return r.fail("a-count-mismatch")
+			}
+			if r.i < len(r.s) && r.s[r.i] != 'i' && r.s[r.i] != 's' {
+				return r.fail("a-key-type")
 			}
 			k := r.value(depth + 1)
 			if k == nil {
@@ -330,11 +393,14 @@ func (r *serReader) value(depth int) *P {
 			}
 		}
 		if !r.lit("}") {
-			return nil
+			if r.i >= len(r.s) {
+				return r.fail("truncated")
+			}
+			return r.fail("a-count-mismatch")
 		}
 		return p
 	}
-	return nil
+	return r.fail("unknown-type-tag")
 }
 
 // ---- enumeration helpers -------------------------------------------------------------------------
